@@ -25,7 +25,7 @@ def h13(n, k, with_merge):
         numbers, D, dist, system, radii, bt, clusters = SC.make_prestate(e, n, k)
         mt = e.real("merge_threshold", lo=0, hi=1)
         mr = e.real("merge_radius")
-        index_sets = [sorted(c.indices) for c in clusters]
+        index_sets = [list(c.indices) for c in clusters]
         s = SBCM.SBC()
         calls = []
 
@@ -139,20 +139,32 @@ def conc_shortcut(numbers, D, index_sets, merge_threshold, merge_radius, bond_th
             c.get_dimensionality()
         finally:
             CLM.matid.geometry.get_dimensionality = orig
-        if list(rec["atoms"].get_atomic_numbers()) != [int(numbers[i]) for i in idx]:
-            msgs.append(f"cluster {idx}: wrong atoms forwarded")
+        # the forwarded atoms, matrix and radii must describe the same atoms in one common order (that of cluster.indices or
+        # any other, e.g. sorted); a consistent re-ordering is not a violation
+        import itertools
+        orders = [idx, sorted(idx)] + ([list(p) for p in itertools.permutations(idx)] if len(idx) <= 4 else [])
+        best = None
+        for od in orders:
+            m_ = []
+            if list(rec["atoms"].get_atomic_numbers()) != [int(numbers[i]) for i in od] or len(rec["atoms"]) != len(od):
+                m_.append(f"cluster {idx}: the forwarded atoms are not the cluster's atoms")
+            if rec["M"] is not None:
+                want = D[np.ix_(od, od)]
+                wc = np.clip(want, 0, 1.1 * bond_threshold)
+                if rec["M"].shape != want.shape:
+                    m_.append(f"cluster {idx}: forwarded distance matrix has shape {rec['M'].shape} (stale cache), cluster has {len(idx)} atoms")
+                elif not (np.allclose(rec["M"], want) or np.allclose(rec["M"], wc)):
+                    m_.append(f"cluster {idx}: forwarded distance matrix is not the matrix of the forwarded atoms")
+            rr = rec["radii"]
+            if isinstance(rr, str) or np.asarray(rr).shape != (len(od),) or not np.allclose(np.asarray(rr, dtype=float), radii[od]):
+                m_.append(f"cluster {idx}: radii {rr if isinstance(rr, str) else 'array'} forwarded are not the clustering's radii of the forwarded atoms")
+            if best is None or len(m_) < len(best):
+                best = m_
+            if not m_:
+                break
+        msgs += best
         if rec["thr"] != bond_threshold:
             msgs.append(f"cluster {idx}: threshold {rec['thr']} forwarded instead of the bond threshold {bond_threshold}")
-        if rec["M"] is not None:
-            want = D[np.ix_(idx, idx)]
-            wc = np.clip(want, 0, 1.1 * bond_threshold)
-            if rec["M"].shape != want.shape:
-                msgs.append(f"cluster {idx}: forwarded distance matrix has shape {rec['M'].shape} (stale cache), cluster has {len(idx)} atoms")
-            elif not (np.allclose(rec["M"], want) or np.allclose(rec["M"], wc)):
-                msgs.append(f"cluster {idx}: forwarded distance matrix is not the matrix of the current atoms")
-        rr = rec["radii"]
-        if isinstance(rr, str) or not np.allclose(np.asarray(rr, dtype=float), radii[idx]):
-            msgs.append(f"cluster {idx}: radii {rr if isinstance(rr, str) else 'array'} forwarded instead of the clustering's radii")
     return msgs
 
 
